@@ -143,6 +143,80 @@ Section BsgsProofs.
     intros Hx Hf. unfold discrete_log.
     pose proof (dl_go_needs_steps x Hx fuel 0) as H. rewrite N.mul_0_l, !N.sub_0_r in H. apply H. rewrite N.add_0_r. exact Hf.
   Qed.
+
+  (** ** Serial / Deserial round trip of the table, every table size *)
+  Fixpoint keys_distinct (t : list (G * N)) : Prop :=
+    match t with
+    | [] => True
+    | e :: t' => (forall q, In q t' -> fst q <> fst e) /\ keys_distinct t'
+    end.
+
+  Lemma existsb_key_false (acc : list (G * N)) (p : G) : (forall q, In q acc -> fst q <> p) -> existsb (fun q => geqb (fst q) p) acc = false.
+  Proof.
+    induction acc as [|a acc IH]; intros Hn; cbn [existsb]; [reflexivity|].
+    destruct (geqb (fst a) p) eqn:E.
+    - apply geqb_spec in E. exfalso. apply (Hn a); [left; reflexivity|exact E].
+    - cbn. apply IH. intros q Hq. apply Hn. right. exact Hq.
+  Qed.
+
+  Lemma read_entries_all : forall (t rest acc : list (G * N)),
+    keys_distinct t -> (forall e q, In e t -> In q acc -> fst q <> fst e) ->
+    read_entries G geqb (length t) (t ++ rest) acc = Some (rev acc ++ t).
+  Proof.
+    induction t as [|[p j] t IH]; intros rest acc Hd Hacc; cbn [length read_entries app].
+    - now rewrite app_nil_r.
+    - destruct Hd as [Hp Hd].
+      rewrite existsb_key_false by (intros q Hq; apply (Hacc (p, j) q); [left; reflexivity|exact Hq]).
+      rewrite IH; [cbn [rev]; now rewrite <- app_assoc|exact Hd|].
+      intros e q He [<-|Hq]; [|apply Hacc; [right; exact He|exact Hq]].
+      cbn [fst]. intro E. apply (Hp e He). now symmetry.
+  Qed.
+
+  Theorem bsgs_deserial_serial_gen (b : bsgs G) :
+    keys_distinct (bs_table G b) -> length (bs_table G b) = N.to_nat (bs_m G b) ->
+    bsgs_deserial G geqb (bsgs_serial G b) = Some b.
+  Proof.
+    intros Hd Hl. destruct b as [t inv mm]. cbn [bsgs_serial bsgs_deserial bs_table bs_m bs_inverse_point] in *.
+    rewrite <- Hl. rewrite <- (app_nil_r t) at 2. rewrite read_entries_all; [reflexivity|exact Hd|].
+    intros e q _ [].
+  Qed.
+
+  Lemma table_entries_in n : forall j0 q, In q (table_entries G gadd n base (nm j0 base) j0) ->
+    exists j, j0 <= j < j0 + N.of_nat n /\ q = (nm j base, j).
+  Proof.
+    induction n as [|n IH]; intros j0 q Hq; cbn [table_entries] in Hq; [contradiction|].
+    rewrite Nat2N.inj_succ. destruct Hq as [<-|Hq].
+    - exists j0. split; [lia|reflexivity].
+    - rewrite <- nmul_succ1 in Hq. destruct (IH _ _ Hq) as (j & Hj & ->). exists j. split; [lia|reflexivity].
+  Qed.
+  Lemma table_entries_length n : forall cur j0, length (table_entries G gadd n base cur j0) = n.
+  Proof. induction n as [|n IH]; intros cur j0; cbn [table_entries length]; [reflexivity|]. now rewrite IH. Qed.
+  Lemma table_entries_distinct n : forall j0, j0 + N.of_nat n <= bound ->
+    keys_distinct (table_entries G gadd n base (nm j0 base) j0).
+  Proof.
+    induction n as [|n IH]; intros j0 Hb; cbn [table_entries keys_distinct]; [exact I|].
+    rewrite Nat2N.inj_succ in Hb. rewrite <- nmul_succ1. split; [|apply IH; lia].
+    intros q Hq. destruct (table_entries_in _ _ _ Hq) as (j & Hj & ->). cbn [fst]. intro E.
+    apply base_inj in E; lia.
+  Qed.
+
+  (** a freshly built table of ANY size m <= bound survives serialisation: all m entries are read back *)
+  Theorem bsgs_deserial_serial : bsgs_deserial G geqb (bsgs_serial G tb) = Some tb.
+  Proof.
+    apply bsgs_deserial_serial_gen.
+    - rewrite bsgs_new_table. apply table_entries_distinct. rewrite N2Nat.id. lia.
+    - cbn [bsgs_new bs_table bs_m]. apply table_entries_length.
+  Qed.
+  (** ... and a stream with fewer than m entries is refused, never silently truncated *)
+  Theorem bsgs_deserial_short_stream (inv : G) (stream : list (G * N)) :
+    (length stream < N.to_nat m)%nat -> bsgs_deserial G geqb (m, inv, stream) = None.
+  Proof.
+    intros Hl. cbn [bsgs_deserial].
+    assert (R : forall n s acc, (length s < n)%nat -> read_entries G geqb n s acc = None).
+    { induction n as [|n IH]; intros s acc Hs; [lia|]. cbn [read_entries]. destruct s as [|[p j] s]; [reflexivity|].
+      destruct (existsb _ acc); [reflexivity|]. apply IH. cbn [length] in Hs. lia. }
+    now rewrite R.
+  Qed.
 End BsgsProofs.
 
 (** the hypothesis [m <= bound] is a genuine precondition: in Z/5 with base 1 (order 5) a table of
